@@ -42,6 +42,35 @@ def driver_events(wd, seed, nsessions):
     return out, json.loads(r.stdout.strip().splitlines()[-1])
 
 
+SESSION_CFG = ("SPECIFICATION TraceSpec\nCONSTANTS\n  ObjChoices <- TObjChoices\n  ArgPts <- TArgPts\n  MoveVecs <- TMoveVecs\n"
+               "  Alphabet <- TAlphabet\n  QueryOps <- TQueryOps\n  MaxDepth = 0\n  Probes <- TProbes\n"
+               "INVARIANT Report\nINVARIANT TraceDispInv\nPOSTCONDITION AllConsumed\nCHECK_DEADLOCK FALSE\n")
+
+
+def session_events(wd, seed, nsessions):
+    out = os.path.join(wd, "session_trace.json")
+    r = subprocess.run([sys.executable, os.path.join(HERE, "session_driver.py"), str(seed), str(nsessions), out],
+                       capture_output=True, text=True, env=_env(), cwd=wd, timeout=1800)
+    if r.returncode != 0 or not os.path.exists(out):
+        raise tlcio.MachineryError("session driver failed: " + (r.stdout + r.stderr)[-600:])
+    return out, json.loads(r.stdout.strip().splitlines()[-1])
+
+
+def validate_sessions(trace_file, timeout_s=1800):
+    """stateful validation through the actions of the Session machine; returns (report, flat event list with (tid, l) -> event)"""
+    sessions = json.load(open(trace_file))
+    if not sessions:
+        return {"sessions": 0, "events": 0, "bad": []}, sessions
+    run = tlcio.TLCRun(os.path.join(tlcio.SPEC, "G3DSessionTrace.tla"), SESSION_CFG, workers=1, timeout_s=timeout_s,
+                       env={"TRACE_FILE": trace_file})
+    rep = None
+    for line in run.raw_lines():
+        rep = tlcio.parse_case(line)
+    if not run.ok or rep is None:
+        raise tlcio.MachineryError("session trace validation did not complete: %s\n%s" % (run.error, "\n".join(run.log[-25:])))
+    return rep, sessions
+
+
 def validate(trace_file, timeout_s=1800):
     """returns (report dict {events, skipped, bad: [[index, clause], ...]}, events list)"""
     events = json.load(open(trace_file))
@@ -74,12 +103,26 @@ def run_for(res, sources, props, seed=0, nsessions=300):
     total = {"events": 0, "skipped": 0, "verdicts_other_properties": 0, "sources": {}}
     try:
         for src in sources:
-            if src == "unit_tests":
-                f, stats = unit_test_events(wd)
+            if src == "sessions":
+                f, stats = session_events(wd, seed, nsessions)
+                rep, sessions = validate_sessions(f)
+                allm = []
+                for tid, l, clause in rep["bad"]:
+                    ev = sessions[tid - 1][l - 1]
+                    allm.append({"prop": clause.split(".")[0], "clause": clause + ".session_trace",
+                                 "detail": "recorded session disagrees with the Session machine at event %d" % l,
+                                 "sig": {"op": ev.get("op", ev["ev"]), "ev": ev["ev"], "source": src},
+                                 "case": {"session": sessions[tid - 1], "event_index": l}, "expected": None, "observed": ev.get("res"),
+                                 "pose": None, "tag": "trace"})
+                rep = {"events": rep["events"], "skipped": 0, "bad": rep["bad"]}
+                mine = [m for m in allm if m["prop"] in props]
             else:
-                f, stats = driver_events(wd, seed, nsessions)
-            rep, events = validate(f)
-            mine = [m for m in verdict_mismatches(rep, events, src) if m["prop"] in props]
+                if src == "unit_tests":
+                    f, stats = unit_test_events(wd)
+                else:
+                    f, stats = driver_events(wd, seed, nsessions)
+                rep, events = validate(f)
+                mine = [m for m in verdict_mismatches(rep, events, src) if m["prop"] in props]
             other = len(rep["bad"]) - len(mine)
             for m in mine:
                 m["prop"] = res.prop
